@@ -18,6 +18,9 @@ InstTy == "inst_ref<Object>"
 InstTyOf(c) == "inst_ref<" \o c \o ">"
 SetTyOf(c) == "inst_ref_set<" \o c \o ">"
 RelOps == CmpOps \cup {"and", "or"}
+EvTy == "inst<Event>"
+CreateEventStmts == {"create_ev_class", "create_ev_inst"}
+EventStmts == {"gen_class", "gen_inst"} \cup CreateEventStmts
 
 \* a typing environment maps a variable to [ty |-> data type name, c |-> key letters ("" for scalars)]
 TV(ty, c) == [ty |-> ty, c |-> c]
@@ -111,6 +114,13 @@ ES(s, env, home) ==
                 envw == Bind(env, "selected", TV(InstTy, k))
             IN [es |-> own \o EE(s.h, env, home, TRUE) \o (IF s.haswhere THEN EE(s.w, envw, home, TRUE) ELSE <<>>),
                 env |-> Bind(env, s.v, TV(IF s.card = "many" THEN SetTyOf(k) ELSE InstTyOf(k), k))]
+      \* event statements: the values of the data items are value instances; the receiving variable (or self) is a
+      \* variable, not a value; a create event statement declares its event variable (type inst<Event>) when it is new
+      [] s.t \in EventStmts ->
+            [es |-> own \o EPs(s.ev.data, env, home) \o (IF s.t \in {"gen_inst", "create_ev_inst"} THEN <<Ent(FALSE, "")>> ELSE <<>>),
+             env |-> IF s.t \in CreateEventStmts /\ s.v \notin DOMAIN env THEN Bind(env, s.v, TV(EvTy, "")) ELSE env]
+      \* generating an event instance created before reads the event variable
+      [] s.t = "gen_pre" -> [es |-> own \o EE(s.e, env, home, TRUE), env |-> env]
       [] OTHER -> [es |-> own, env |-> env]
 
 Entries(body, home) == EB(body, <<>>, home).es
@@ -173,6 +183,7 @@ VS(s, a, env, ctx) ==
                 n == RootOf(s.lhs).n
             IN [vs |-> decl(n, tv), env |-> IF n \in DOMAIN env THEN env ELSE Bind(env, n, tv)]
       [] s.t = "create" -> [vs |-> decl(s.v, TV(InstTyOf(s.k), s.k)), env |-> Bind(env, s.v, TV(InstTyOf(s.k), s.k))]
+      [] s.t \in CreateEventStmts -> [vs |-> decl(s.v, TV(EvTy, "")), env |-> IF s.v \in DOMAIN env THEN env ELSE Bind(env, s.v, TV(EvTy, ""))]
       [] s.t = "select_from" ->
             LET tv == TV(IF s.card = "many" THEN SetTyOf(s.k) ELSE InstTyOf(s.k), s.k) IN [vs |-> decl(s.v, tv), env |-> Bind(env, s.v, tv)]
       [] s.t = "select_related" ->
@@ -218,6 +229,8 @@ PS(s) == CASE s.t = "assign" -> PE(s.lhs) \o PE(s.e)
            [] s.t = "while" -> PE(s.c) \o PBk(s.b)
            [] s.t = "for" -> PBk(s.b)
            [] s.t \in {"select_from", "select_related"} -> IF s.haswhere THEN PE(s.w) ELSE <<>>
+           \* the data items of an event specification succeed one another like the parameters of an invocation
+           [] s.t \in EventStmts -> Chain(s.ev.data) \o PPs(s.ev.data)
            [] OTHER -> <<>>
 ParamPairs(body) == PBk(body)
 =============================================================================
